@@ -240,8 +240,12 @@ def go_test(pkgs, pkgdir, run, env=None, timeout=1200, race=False, tmp=None, cov
     if race:
         cmd.append("-race")
         e["CGO_ENABLED"] = "1"
+    covdir = os.environ.get("VERIF_COVER")          # tools/coverage.py: statement coverage of the real code by the drivers
+    if covdir and not cover:
+        os.makedirs(covdir, exist_ok=True)
+        cover = tempfile.mktemp(prefix="cov-", suffix=".out", dir=covdir)
     if cover:
-        cmd += ["-coverprofile", cover]
+        cmd += ["-coverprofile", cover, "-coverpkg", "./..."]
     cmd.append("./" + pkgdir + "/")
     t0 = time.time()
     try:
